@@ -95,6 +95,11 @@ def closeSig (m : Nat) (g2 : LSig) : LSig :=
     { g3 with dirty := false, cells := g3.cells.filter (fun c => !c.slot.empty) }
   else g3
 
+theorem closeSig_act (m : Nat) (g2 : LSig) : (closeSig m g2).active = g2.active - 1 := by
+  unfold closeSig
+  simp only
+  split <;> split <;> rfl
+
 /-- the epilogue of `emitSig`: one function of the state the turns ended in — the same for a normal and
     an exceptional end -/
 def epi (i m : Nat) (s : LSt) : LSt :=
